@@ -4360,6 +4360,10 @@ class TLSConnection(TLSRecordLayer):
                 self._pre_client_hello_handshake_hash = \
                     self._handshake_hash.copy()
 
+                # the record size limit applies to protected records only
+                # (RFC 8449, section 4); the second ClientHello is plaintext
+                negotiated_recv_limit = self._recv_record_limit
+                self._recv_record_limit = 2**14
                 for result in self._getMsg(ContentType.handshake,
                                            HandshakeType.client_hello):
                     if result in (0, 1):
@@ -4367,6 +4371,7 @@ class TLSConnection(TLSRecordLayer):
                     else:
                         break
                 clientHello = result
+                self._recv_record_limit = negotiated_recv_limit
 
                 if clientHello.extensions:
                     ext_types = [i.extType for i in clientHello.extensions]
